@@ -729,15 +729,18 @@ theorem run_callFunction_clo (vid : Nat) (rest : Option String) (nfix : Nat) (vs
       simp only [run_ite, if_pos hlt, run_err, run_bind]
 
 /-- applying a closure object to evaluated arguments (already on the data stack — a variadic tail already
-packed —, control already in the callee): prologue, body, epilogue, back in the caller — against `applyFn` -/
+packed —, control already in the callee): prologue, body, epilogue, back in the caller — against `applyFn`.
+The caller is function `f₀` for the relation; `s₁.curfunc` is `f₀` (a call instruction) or the pseudo-function
+of the Go builtins (`apply`/`map` calling back into the machine), which only travels in the return address. -/
 def FClaimU (n : Nat) : Prop :=
-  ∀ m s₁ rs₁ env vid (c : Ref.Clos) (vs : List Val) (D : List (Option Val)), RelF m s₁ rs₁ env → GoodFn m s₁ rs₁ vid →
+  ∀ m s₁ rs₁ env vid (c : Ref.Clos) (vs : List Val) (D : List (Option Val)) (f₀ : Nat), RelF m (s₁.withCur f₀) rs₁ env →
+    GoodFn m s₁ rs₁ vid →
     rs₁.clos[m vid]? = some c →
     s₁.data = vs.reverse.map some ++ D → (∀ v ∈ vs, VOk m s₁ rs₁ v) → arOk c.rest c.ps.length vs.length →
     match Ref.applyFn n (.fn (m vid)) (vs.map (trf m)) rs₁ with
     | .ok v' rs' => ∃ (s' : St) (m' : Nat → Nat) (v : Val), ReachX (enteredA s₁ vid c.rest c.ps.length vs D) s'
         ∧ s'.pc = s₁.pc + 1
-        ∧ s'.data = some v :: D ∧ v' = trf m' v ∧ RelF m' s' rs' env ∧ MExt s₁ m m' ∧ RExt rs₁ rs'
+        ∧ s'.data = some v :: D ∧ v' = trf m' v ∧ RelF m' (s'.withCur f₀) rs' env ∧ MExt s₁ m m' ∧ RExt rs₁ rs'
         ∧ FrameF s₁ s' ∧ VOk m' s' rs' v
     | .err rs' => FailsX (enteredA s₁ vid c.rest c.ps.length vs D) rs'.trace
     | .timeout => True
@@ -933,12 +936,13 @@ theorem simF_call_fn {k : Nat} (hA : FClaimA (k + 1)) (hU : FClaimU (k + 1)) {h 
         simp only
         rw [hlen, hcf]; rfl
       have r1 : ReachX s (enteredA s1 vid c.rest c.ps.length vs s.data) := ReachX.step hseg.head (M + 3) hx
-      have hu := hU m1 s1 rs1 env vid c vs s.data rel1 hg1 (by rw [hmv]; exact ext1.2 _ _ hc1) hd1 hcl har
+      have hu := hU m1 s1 rs1 env vid c vs s.data s1.curfunc rel1 hg1 (by rw [hmv]; exact ext1.2 _ _ hc1) hd1 hcl har
       rw [hmv, ← hvs] at hu
       cases h2 : Ref.applyFn (k + 1) (.fn (m vid)) vs' rs1 with
       | ok v' rs2 =>
         rw [h2] at hu
         obtain ⟨s', m', v, r2, hpc, hdat, hv, rel2, hm2, ext2, fr2, hcl2⟩ := hu
+        rw [withCur_self fr2.curfunc] at rel2
         refine ⟨s', m', v, r1.trans r2, ⟨?_, by rw [hpc, hp1]; simp, hdat⟩, hv, rel2, hm1.trans hm2 fr1.fnsLen,
           ext1.trans ext2, fr1.trans fr2, hcl2⟩
         rw [fr2.curfunc, fr1.curfunc, fr2.fns _ (by rw [← fr1.curfunc]; exact Nat.lt_of_lt_of_le (by rw [fr1.curfunc]; exact hcurlt) fr1.fnsLen),
@@ -1138,16 +1142,20 @@ theorem simF_call_other {k : Nat} {h : String} {args : List Expr} {m : Nat → N
     obtain ⟨F, rfl⟩ : ∃ F, f = F + 2 := ⟨f - 2, by omega⟩
     exact ⟨s, hexec F, hrel.trace⟩
 
-/-- a call whose callee symbol denotes `force` (proved in `SimF2Lazy.lean` from the claims at lower fuel) -/
-def FClaimG (k : Nat) : Prop :=
+/-- a call whose callee symbol denotes the Go builtin `name` (for `force`, `apply`, `map`: proved in `SimF2Lazy.lean`,
+`SimF2Apply.lean` from the claims at lower fuel) -/
+def FClaimH (k : Nat) (name : String) : Prop :=
   ∀ (h : String) (args : List Expr), FaList args = true → ∀ (m : Nat → Nat) (s : St) (rs : Ref.St) (env : Nat)
     (pre post : List Instr) (i : Nat), RelF m s rs env → Seg s pre [.callExpr (.sym h) args] post →
-    lexLookup s h = some (i, .builtin "force") →
-    SimF [.callExpr (.sym h) args] m s rs env (refCall k (.builtin "force") args env rs)
+    lexLookup s h = some (i, .builtin name) →
+    SimF [.callExpr (.sym h) args] m s rs env (refCall k (.builtin name) args env rs)
+
+/-- a call of `force` -/
+abbrev FClaimG (k : Nat) : Prop := FClaimH k "force"
 
 /-- **A call by name**: callee by lookup; a closure object, a first-order builtin, or something
 that cannot be called. -/
-theorem simF_call {k : Nat} (hA : FClaimA (k + 1)) (hU : FClaimU (k + 1)) (hG : FClaimG k) {h : String} (hh : okSym h = true)
+theorem simF_call {k : Nat} (hA : FClaimA (k + 1)) (hU : FClaimU (k + 1)) (hG : ∀ name, hoB name → FClaimH k name) {h : String} (hh : okSym h = true)
     {args : List Expr} (hargs : FaList args = true) {m : Nat → Nat} {s : St} {rs : Ref.St} {env : Nat}
     {pre post : List Instr} (hrel : RelF m s rs env) (hseg : Seg s pre [.callExpr (.sym h) args] post) :
     SimF [.callExpr (.sym h) args] m s rs env (Ref.eval (k + 2) (.call (.sym h) args) env rs) := by
@@ -1172,9 +1180,7 @@ theorem simF_call {k : Nat} (hA : FClaimA (k + 1)) (hU : FClaimU (k + 1)) (hG : 
     | builtin name =>
       rcases hv.builtin with hn | hn
       · exact simF_call_builtin hA hn hargs hrel hseg hl
-      · have hn' : name = "force" := hn
-        subst hn'
-        exact hG h args hargs m s rs env pre post i hrel hseg hl
+      · exact hG name hn h args hargs m s rs env pre post i hrel hseg hl
     | arr r => exact simF_call_arr hA hargs hrel hseg hl
     | nil => exact simF_call_other hrel hseg hl hv (fun _ e => by cases e) (fun _ e => by cases e) (fun _ e => by cases e)
     | bool b => exact simF_call_other hrel hseg hl hv (fun _ e => by cases e) (fun _ e => by cases e) (fun _ e => by cases e)
